@@ -19,7 +19,7 @@ fn c01_plan(cfg: &Cfg) -> BinPlan {
         full_lhs: vec![K::F8x1, K::F8x2, K::F8x3, K::F16x1, K::D, K::A],
         full_rhs: vec![K::F8x1, K::F8x2, K::F8x3, K::F16x1, K::F64x2, K::D, K::A],
         full_b: if q { 5 } else { 8 },
-        deep: if q { vec![(K::F8x2, K::F8x2, 7)] } else { vec![(K::F8x2, K::F8x2, 10), (K::F8x2, K::F8x3, 10), (K::F8x3, K::D, 10), (K::F8x2, K::D, 10)] },
+        deep: if q { vec![(K::F8x2, K::F8x2, 7)] } else { vec![(K::F8x2, K::F8x2, 11), (K::F8x2, K::F8x3, 11), (K::F8x3, K::D, 10), (K::F8x2, K::D, 10), (K::D, K::F8x2, 10), (K::A, K::A, 10), (K::F16x1, K::F8x3, 10)] },
         lat_lhs: ALL_KINDS.to_vec(),
         lat_rhs_classes: if q { vec![K::F8x3, K::F64x2, K::F128x2, K::D, K::A] } else { ALL_KINDS.to_vec() },
         lat_same_kind: true,
@@ -40,7 +40,7 @@ fn c02_plan(cfg: &Cfg) -> BinPlan {
         full_lhs: vec![K::F8x1, K::F8x2, K::F8x3, K::F16x1, K::D, K::A],
         full_rhs: vec![K::F8x1, K::F8x2, K::F8x3, K::F16x1, K::F64x2, K::D, K::A],
         full_b: if q { 5 } else { 7 },
-        deep: if q { vec![(K::F8x2, K::F8x2, 6)] } else { vec![(K::F8x2, K::F8x2, 9), (K::F8x2, K::F8x3, 9), (K::F8x2, K::D, 9), (K::D, K::F8x2, 9)] },
+        deep: if q { vec![(K::F8x2, K::F8x2, 6)] } else { vec![(K::F8x2, K::F8x2, 10), (K::F8x2, K::F8x3, 10), (K::F8x2, K::D, 9), (K::D, K::F8x2, 9), (K::A, K::D, 9), (K::F8x3, K::F16x1, 9)] },
         lat_lhs: ALL_KINDS.to_vec(),
         lat_rhs_classes: if q { vec![K::F8x3, K::F64x2, K::F128x2, K::D, K::A] } else { ALL_KINDS.to_vec() },
         lat_same_kind: true,
@@ -61,7 +61,7 @@ fn c04_plan(cfg: &Cfg) -> BinPlan {
         full_lhs: vec![K::F8x1, K::F8x2, K::F8x3, K::F16x1, K::D, K::A],
         full_rhs: vec![K::F8x1, K::F8x2, K::F8x3, K::F16x1, K::F64x2, K::D, K::A],
         full_b: if q { 5 } else { 8 },
-        deep: if q { vec![(K::F8x2, K::F8x3, 7)] } else { vec![(K::F8x2, K::F8x2, 10), (K::F8x2, K::F8x3, 10), (K::F8x2, K::D, 10)] },
+        deep: if q { vec![(K::F8x2, K::F8x3, 7)] } else { vec![(K::F8x2, K::F8x2, 11), (K::F8x2, K::F8x3, 11), (K::F8x2, K::D, 10), (K::D, K::F8x3, 10), (K::A, K::F16x1, 10)] },
         lat_lhs: ALL_KINDS.to_vec(),
         lat_rhs_classes: if q { vec![K::F8x3, K::F64x2, K::F128x2, K::D, K::A] } else { ALL_KINDS.to_vec() },
         lat_same_kind: true,
@@ -159,7 +159,7 @@ pub fn run(cfg: &Cfg) -> Option<(Part, Value, bool)> {
         "C17" => Some(crate::iters::run_c17(cfg)),
         "C19" => Some(crate::overflow::run_c19(cfg)),
         "C18" => Some(crate::hist::run_c18(cfg)),
-        "C20" => Some(arith::run_forms_plan(cfg, if cfg.quick() { 4 } else { 6 }, true, &[K::F64x2, K::D, K::A])),
+        "C20" => Some(arith::run_forms_plan(cfg, if cfg.quick() { 4 } else { 7 }, true, &[K::F64x2, K::D, K::A])),
         _ => None,
     }
 }
